@@ -35,7 +35,7 @@ import (
 const packageRoot = "c12.test/gen"
 
 var (
-	nsPool     = []string{"alpha", "alpha.beta", "gamma", "delta.internal.x", "com.example.eps", "zetaCase"}
+	nsPool     = []string{"alpha", "alpha.beta", "gamma", "delta.internal.xtra", "com.example.eps", "zetaCase"}
 	typePool   = []string{"Foo", "Bar", "Baz", "Item", "Node", "Kind", "Status", "Data", "Entry", "Point", "Foo_Bar", "X1", "URL", "Shape"}
 	fieldPool  = []string{"id", "name", "value", "count2", "flag", "payload", "items", "attrs", "owner", "next", "created_at", "_hidden", "x", "URLValue", "typ", "ref", "extra", "amount", "ratio", "blob", "tags", "child", "u", "m", "more", "a1", "zeta", "with_underscore_", "camelCaseName"}
 	symbolPool = []string{"A", "FOO", "BAR_BAZ", "_X", "$Y", "1ST", "lower", "Mixed_Case", "A$B", "__", "Z9", "unknown"}
@@ -730,7 +730,7 @@ func Generate(rng *rand.Rand, full bool) *Manifest {
 		g.nss = append(g.nss, nsPool[k])
 	}
 	if full {
-		g.nss = []string{"alpha", "alpha.beta", "delta.internal.x", "zetaCase"}
+		g.nss = []string{"alpha", "alpha.beta", "delta.internal.xtra", "zetaCase"}
 	}
 	switch x := rng.Intn(100); {
 	case full || x < 45:
@@ -882,11 +882,13 @@ func Generate(rng *rand.Rand, full bool) *Manifest {
 func (g *gen) cleanCycle() {
 	lo, hi := g.nss[0], g.nss[1]
 	a, b := g.shell("record", lo, "CycA"), g.shell("record", hi, "CycB")
+	g.core = map[Ident]bool{a.ID: true, b.ID: true}
 	for _, d := range []*Decl{a, b} {
 		n := 1 + g.rng.Intn(3)
 		for i := 0; i < n; i++ {
-			d.Fields = append(d.Fields, Field{Name: fmt.Sprintf("reach%d", i), Optional: g.coin(0.5),
-				Ty: g.randTy(2, d.ID.NS, g.rank[d.ID], false)})
+			opt := g.coin(0.5)
+			d.Fields = append(d.Fields, Field{Name: fmt.Sprintf("reach%d", i), Optional: opt,
+				Ty: g.randTy(2, d.ID.NS, g.rank[d.ID], !opt)})
 		}
 		// reach the equally named types of both namespaces, so that the renaming is exercised
 		if it := g.m.find(Ident{d.ID.NS, "Item"}); it != nil {
@@ -894,7 +896,6 @@ func (g *gen) cleanCycle() {
 			g.m.tag("name-clash-reached-by-cycle")
 		}
 	}
-	g.core = map[Ident]bool{a.ID: true, b.ID: true}
 	a.Fields = append(a.Fields, Field{Name: "cycOut", Ty: ref(b.ID), Optional: true})
 	b.Fields = append(b.Fields, Field{Name: "cycBack", Ty: mapOf(ref(a.ID))})
 	g.m.tag("closed-two-namespace-cycle")
